@@ -201,7 +201,9 @@ def _apply(obj, led, op, viol, check):
             if accepted and legal is False:
                 viol.append(("inadmissible-reduction-accepted/%s->%s" % (old, r),
                              "set_resolution(%r) accepted from %r" % (r, old), None))
-            if (not accepted) and legal is True:
+            if (not accepted) and legal is True and obj.xaxis is not None:
+                # (without frequency axes a reduction cannot allocate its arrays: refusing it is
+                # fine, as long as nothing stored changes - checked below)
                 viol.append(("admissible-reduction-refused/%s->%s" % (old, r),
                              "set_resolution(%r) refused from %r" % (r, old), None))
             if not accepted:
@@ -349,14 +351,27 @@ def execute(hist):
     qr = isolation.qr()
     sig, tot = _names()
     obj = qr.TwoDResponse()
-    obj.set_axis_1(qr.FrequencyAxis(0.0, SHAPE[0], 1.0))
-    obj.set_axis_3(qr.FrequencyAxis(0.0, SHAPE[1], 1.0))
+    late = bool(getattr(execute, "late_axes", False))
+
+    def setaxes():
+        obj.set_axis_1(qr.FrequencyAxis(0.0, SHAPE[0], 1.0))
+        obj.set_axis_3(qr.FrequencyAxis(0.0, SHAPE[1], 1.0))
+    if not late:
+        setaxes()
     led = TL.Ledger(sig, tot)
     viol = []
     for i, op in enumerate(hist):
         last = (i == len(hist) - 1)
-        _apply(obj, led, op, viol, check=last)
+        if op[0] == "setaxes":
+            # section late-axes: the frequency axes are attached only now (the containers
+            # of the package add data first and set the axes afterwards)
+            if obj.xaxis is None:
+                setaxes()
+        else:
+            _apply(obj, led, op, viol, check=last)
         if last:
+            if obj.xaxis is None:
+                setaxes()              # views are read on a complete object
             _check_views(obj, led, viol)
     seen, v2 = set(), []
     for v in viol:
@@ -367,6 +382,13 @@ def execute(hist):
     tier = execute.tier
     if tier not in _ALPHA:
         _ALPHA[tier] = alphabet(tier)
+    if late:
+        key = [key, obj.xaxis is None if False else any(o[0] == "setaxes" for o in hist)]
+        en = [o for o in _ALPHA[tier] if o[0] in ("setres",) or
+              (o[0] == "add" and o[4] == "A" and o[3] in (None, "p1"))] + [["setaxes"]]
+        return {"key": key, "enabled": en, "violations": v2,
+                "nontrivial": len(led.entries) >= 1,
+                "outcome": ["late", obj.storage_resolution, len(led.entries), len(v2)]}
     return {"key": key, "enabled": _ALPHA[tier], "violations": v2,
             "nontrivial": len(led.entries) >= 1,
             "outcome": [obj.storage_resolution, len(led.entries), len(v2)]}
@@ -376,6 +398,7 @@ execute.tier = "quick"
 
 
 def replay(case):
+    execute.late_axes = any(o[0] == "setaxes" for o in case["history"]) or bool(case.get("late"))
     return execute(tuple(tuple(o) if isinstance(o, list) else o for o in case["history"]))["violations"]
 
 
@@ -391,5 +414,11 @@ def run(run):
                        "published constants and checked for being partitions",
                        "integer-valued arrays so that sums are exact (equality, no tolerance)"]
     run.bounds = {"depth": depth, "alphabet": len(alphabet(run.tier)), "arrays": ["A", "B"]}
-    run_bfs(run, execute, depth, cap_s=cap)
+    execute.late_axes = False
+    run_bfs(run, execute, depth, cap_s=cap, section="axes-first")
+    # the same protocol on an object that gets its frequency axes late (additions and
+    # resolution changes before the axes exist)
+    execute.late_axes = True
+    run_bfs(run, execute, depth, cap_s=cap / 2, section="late-axes")
+    execute.late_axes = False
     run.note(alphabet_size=len(alphabet(run.tier)))
